@@ -63,8 +63,13 @@ class AtomTheory(SpecTheory):
 
     def call_other(self, ex, f, args, kw):
         if isinstance(f, _InvalidSpecifierCtor):
-            # well-defined string atom: op + literal is not a PEP 440 specifier
-            raise RaiseEx("PkgInvalidSpecifier", "not a version specifier")
+            # string atom: whether op + literal happens to be a PEP 440 specifier is a fact about the literal (`platform_version == "10.0"`):
+            # both outcomes are followed
+            t = args[0]
+            t = t if z3.is_expr(t) else z3.StringVal(t)
+            if ex.branch(z3.Not(PKG_VALID(t))):
+                raise RaiseEx("PkgInvalidSpecifier", "not a version specifier")
+            return _PkgSpecVal(t)
         if isinstance(f, _ValidSpecifierCtor):
             # version-valued atom: the specifier packaging builds from this text, known only through its text (uninterpreted membership)
             t = args[0]
@@ -122,3 +127,4 @@ class _PkgContains:
 # packaging.specifiers.Specifier(text).contains(item): uninterpreted (A-PKG-EVAL: with and without prereleases=True it is the same function of
 # (text, item) in the installed packaging >= 26; the bounded part compares against the installed packaging on pre-release environments)
 PKG_CONTAINS = z3.Function("pkg_contains", z3.StringSort(), z3.StringSort(), z3.BoolSort())
+PKG_VALID = z3.Function("pkg_valid_specifier", z3.StringSort(), z3.BoolSort())      # Specifier(text) does not raise InvalidSpecifier
